@@ -504,6 +504,8 @@ func checkArg(got interface{}, v BV, p pType) string {
 // matchesB: does an implementation value equal a model value (as is)?
 func matchesB(v BV, got interface{}) bool {
 	switch v.K {
+	case bUnknown: // a cell the statement leaves open (what `typeof` yields): not judged
+		return true
 	case bNull:
 		return got == nil
 	case bCtx:
